@@ -125,7 +125,15 @@ pub fn gen_tcp_stream(profile: &str, name: &str, rng: &mut SmallRng) -> Stream {
             }
             opq += 1;
             let body = *[limit + 1, limit + 2, 2 * limit, 3 * limit + 7].choose(rng).unwrap();
-            frames.push(oversize_frame_op(op, opq, limit, body));
+            let mut of = oversize_frame_op(op, opq, limit, body);
+            // the size test comes before every other look at the header: key / extras lengths that would be
+            // refused in a frame within the limit do not matter here
+            if rng.gen_bool(0.4) {
+                let (kl, el) = *[(251u16, 8u8), (1000, 8), (3, 21), (65535, 255), (0, 0), (300, 0)].choose(rng).unwrap();
+                of.key_length = kl;
+                of.extras_length = el;
+            }
+            frames.push(of);
             opq += 1;
             frames.push(loud_probe(rng, opq));
             opq += 1;
@@ -150,6 +158,35 @@ pub fn gen_tcp_stream(profile: &str, name: &str, rng: &mut SmallRng) -> Stream {
                     frames.push(if rng.gen_bool(0.5) { loud_probe(rng, opq) } else { Frame::consistent(0x0b, &[], &[], &[], opq, 0) });
                 }
             }
+        }
+        "twrap" => {
+            // a command that carries no value announcing extras + key + n * 65536 bytes (within a 1 MiB limit): lengths that
+            // look right modulo 2^16.  The surplus is made of set frames for the key "inj", so that bytes of the frame's own
+            // body taken for further requests show in the store
+            limit = 1 << 20;
+            opq += 1;
+            frames.push(loud_probe(rng, opq));
+            opq += 1;
+            let (op, el, kl): (u8, u8, u16) = *[(0x00u8, 0u8, 2u16), (0x09, 0, 2), (0x04, 0, 2), (0x05, 20, 2), (0x0a, 0, 0), (0x0b, 0, 0), (0x08, 4, 0), (0x08, 0, 0), (0x07, 0, 0), (0x0c, 0, 2)].choose(rng).unwrap();
+            let n = *[1usize, 1, 2, 15].choose(rng).unwrap();
+            let mut b: Vec<u8> = vec![0u8; el as usize];
+            if kl > 0 {
+                b.extend_from_slice(b"p0");
+            }
+            let fixed = b.len();
+            let mut i = 0u32;
+            while b.len() < fixed + n * 65536 {
+                let inj = Frame::consistent(0x01, &[0, 0, 0, 0, 0, 0, 0, 0], b"inj", b"x", 0xbad0000 + i, 0).bytes();
+                for x in inj {
+                    if b.len() < fixed + n * 65536 {
+                        b.push(x);
+                    }
+                }
+                i += 1;
+            }
+            frames.push(Frame { magic: 0x80, opcode: op, key_length: kl, extras_length: el, data_type: 0, vbucket: 0, body_length: b.len() as u32, opaque: opq, cas: 0, body: b });
+            opq += 1;
+            frames.push(loud_probe(rng, opq));
         }
         "tbig" => {
             // large limits: the oversized body is much larger than one socket read
